@@ -295,8 +295,9 @@ def check_flows(chk, quick):
     data = r.normal(0.3, 0.7, (120, 2))
     from aspire.flows import get_flow_wrapper
 
-    for backend, seeds in (("zuko", [0, 1234]), ("flowjax", [0, 7])):
-        for seed in seeds[: 1 if quick and backend == "flowjax" else 2]:
+    # (a seed is a seed whatever integer type it has: a Python int, a NumPy integer drawn from a SeedSequence or a generator)
+    for backend, seeds in (("zuko", [0, 1234, np.int64(77), np.uint32(5)]), ("flowjax", [0, 7])):
+        for seed in seeds[: 1 if quick and backend == "flowjax" else 4]:
             outs = []
             for amb in (1, 2):
                 with ambient(amb):
@@ -316,13 +317,46 @@ def check_flows(chk, quick):
                     with torch.no_grad():
                         lp = f.log_prob(data[:8])
                     outs.append((ns.to_np(x).tobytes(), ns.to_np(lq).tobytes(), ns.to_np(lp).tobytes()))
-            case = {"level": "flow", "backend": backend, "seed": seed}
+            case = {"level": "flow", "backend": backend, "seed": int(seed), "seed_type": type(seed).__name__}
             chk.count(f"flow:{backend}")
             chk.case(case, json.dumps(case))
             if outs[0] != outs[1]:
                 what = [n for n, u, v in zip(("samples", "log_q", "log_prob"), outs[0], outs[1]) if u != v]
                 chk.fail("same explicit sources give bit-identical results", case,
-                         f"{backend} flow built and trained twice with seed/key {seed} differs in {what}", {"clause": "reproducible", "sampler": backend, "route": "flow", "seed": seed})
+                         f"{backend} flow built and trained twice with seed/key {seed!r} ({type(seed).__name__}) differs in {what}",
+                         {"clause": "reproducible", "sampler": backend, "route": "flow", "seed": int(seed)})
+
+
+def check_resume_without_generator(chk):
+    """a seeded run is interrupted and CONTINUED by a call that supplies no generator of its own (the checkpoint carries the state of the
+    one the run was started with): done twice under different ambient entropy, the continued runs are bit-identical"""
+    for seed in (3, 11):
+        cfg = {"seed": seed, "dims": 2, "n_samples": 14, "kernel_steps": 2, "like_width": 0.5, "checkpoint_every": 1}
+        probe = smcrun.run_smc(cfg)
+        if probe["status"] != "done" or probe["target"].n_like < 6:
+            continue
+        k = probe["target"].n_like // 2
+        outs = []
+        for amb in (1, 2):
+            with ambient(amb):
+                r1 = smcrun.run_smc(cfg, fault_at=k, record_checkpoints=True)
+                if r1["status"] != "fault" or not r1["ckpts"]:
+                    outs.append(None)
+                    continue
+                s2, _ = smcrun.make_sampler(cfg, smcrun.Target(2, width=cfg["like_width"]))        # built with NO generator
+                kw = smcrun.sample_kwargs(cfg, None)
+                kw.pop("rng", None)
+                smp = s2.sample(cfg["n_samples"], resume_from=r1["ckpts"][-1]["bytes"], **kw)
+                outs.append((ns.to_np(smp.x).tobytes(), float(smp.log_evidence), tuple(float(b) for b in s2.history.beta)))
+        case = {"level": "resume_without_generator", "cfg": cfg, "fault_at_likelihood_call": k}
+        chk.count("resume_without_generator")
+        chk.case(case, json.dumps(case))
+        if None in outs:
+            continue
+        if outs[0] != outs[1]:
+            chk.fail("same explicit sources give bit-identical results", case,
+                     "a seeded run interrupted and continued from its checkpoint by a call without a generator gives different results under different ambient entropy "
+                     f"(evidence {outs[0][1]!r} vs {outs[1][1]!r})", {"clause": "reproducible", "sampler": "minipcn_smc", "route": "resume-no-generator", "seed": seed})
 
 
 def check_loaded_flow(chk):
@@ -416,6 +450,7 @@ def run(chk: core.Check):
     check_pairs(chk, r, 3 if quick else 40, pred)
     check_reuse(chk, r, 3 if quick else 30)
     check_loaded_flow(chk)
+    check_resume_without_generator(chk)
     check_flows(chk, quick)
 
     check_fresh_processes(chk)
